@@ -90,6 +90,13 @@ class Effects:
                         W.add(n.attr)
                     else:
                         R.add(n.attr)
+                if (isinstance(n, ast.Call) and isinstance(n.func, ast.Name) and n.func.id in ("getattr", "setattr", "hasattr")
+                        and len(n.args) >= 2 and isinstance(n.args[0], ast.Name) and n.args[0].id == "self"
+                        and isinstance(n.args[1], ast.Constant) and isinstance(n.args[1].value, str)):
+                    if n.func.id == "getattr":
+                        R.add(n.args[1].value)
+                    elif n.func.id == "setattr":
+                        W.add(n.args[1].value)
                 if isinstance(n, (ast.Assign, ast.AugAssign, ast.AnnAssign)):
                     tg = n.targets if isinstance(n, ast.Assign) else [n.target]
                     for t in tg:
